@@ -6,6 +6,8 @@ CONSTANTS
   SmallTags = 1
   KeyMode = "term_value"
   HashMode = "code"
+  NearPairs = FALSE
+  WideProv = FALSE
 CONSTRAINT Export
 INVARIANT ImplEncoder
 INVARIANT ImplClassify
